@@ -305,6 +305,10 @@ func (w *World) makeClients() {
 	// a client that has a secret although its application type is not "web" (registrations like this exist: a
 	// native or browser-based app that was given a secret); authentication follows the auth method, not the type
 	mk("hyb", []op.ApplicationType{op.ApplicationTypeNative, op.ApplicationTypeUserAgent}[cfg.Int(2)], []oidc.AuthMethod{oidc.AuthMethodBasic, oidc.AuthMethodPost}[cfg.Int(2)], []string{"https://hyb.sim/callback"})
+	// a confidential client whose registration names none of the four methods the library knows: the zero value
+	// (OIDC: an omitted token_endpoint_auth_method means client_secret_basic) or a method of another specification.
+	// It has a secret; whatever the method is called, nobody may act for it without that secret.
+	mk("odd", op.ApplicationTypeWeb, []oidc.AuthMethod{"", "client_secret_jwt", "tls_client_auth"}[cfg.Int(3)], []string{"https://odd.sim/callback"})
 	j := mk("jwt", op.ApplicationTypeWeb, oidc.AuthMethodPrivateKeyJWT, []string{"https://jwt.sim/callback"})
 	k := FixtureKey("rsa", 6)
 	k.KeyID = "jwt-key-1"
@@ -415,6 +419,11 @@ func (w *World) RightCreds(id string) Creds {
 		return Creds{Mode: "post", ID: id, Secret: c.Secret}
 	case oidc.AuthMethodPrivateKeyJWT:
 		return Creds{Mode: "assertion", Assertion: w.Assertion(id, id, id, []string{w.Issuer}, time.Now(), time.Now().Add(time.Hour), w.ClientKeys[id])}
+	case oidc.AuthMethodNone:
+		return Creds{Mode: "id-only", ID: id}
+	}
+	if c.Secret != "" {
+		return Creds{Mode: "basic", ID: id, Secret: c.Secret} // a method the library has no name for: the secret, the default way
 	}
 	return Creds{Mode: "id-only", ID: id}
 }
